@@ -1762,15 +1762,31 @@ func (s *Server) loadClients(v []storage.Client) {
 func (s *Server) loadInflight(v []storage.Message) {
 	for _, msg := range v {
 		if client, ok := s.Clients.Get(msg.Client); ok {
-			client.State.Inflight.Set(msg.ToPacket())
+			client.State.Inflight.Set(s.restoreExpiry(msg.ToPacket()))
 		}
 	}
+}
+
+// restoreExpiry recomputes the expiry time of a message read from the datastore: the stored record
+// has the creation time and the message expiry interval, not the expiry time nor the protocol version.
+func (s *Server) restoreExpiry(pk packets.Packet) packets.Packet {
+	interval := int64(pk.Properties.MessageExpiryInterval)
+	if pk.FixedHeader.Type != packets.Publish {
+		interval = 0 // an acknowledgement kept in flight only copies the properties of its publish
+	}
+
+	if expiry := minimum(s.Options.Capabilities.MaximumMessageExpiryInterval, interval); expiry > 0 {
+		pk.Expiry = pk.Created + expiry
+		pk.ProtocolVersion = 5 // the expiry checks only consider MQTT 5 packets
+	}
+
+	return pk
 }
 
 // loadRetained restores retained messages from the datastore.
 func (s *Server) loadRetained(v []storage.Message) {
 	for _, msg := range v {
-		s.Topics.RetainMessage(msg.ToPacket())
+		s.Topics.RetainMessage(s.restoreExpiry(msg.ToPacket()))
 	}
 }
 
